@@ -12,10 +12,10 @@ def run(tier, seed):
         "limits not reached (100000 facts / 10000 iterations / 30 s)",
     ]
     big = tier == "thorough"
-    r = ac.run_universe(ctx, "atten", ac.consts(Universe='"atten"', MaxBlocks=3, Exts="<- ExtsOne" if not big else "<- ExtsAll",
-                                                 ScopeMenu="<- Scopes3" if not big else "<- Scopes4",
+    r = ac.run_universe(ctx, "atten", ac.consts(Universe='"atten"', MaxBlocks=3, Exts="<- ExtsAll",
+                                                 ScopeMenu="<- Scopes4k" if not big else "<- Scopes5",
                                                  AttenSize='"small"' if not big else '"large"',
-                                                 SampleN=16 if not big else 64), timeout=14000)
+                                                 SampleN=8 if not big else 64), timeout=14000)
     ac.replay(ctx, r.exports["PROG"])
     return ctx.finish(
         rule="One TLC state = (token of 1..2 blocks with one rule and one check in any owner, authorizer with a policy pair, appended block E "
